@@ -115,8 +115,41 @@ impl Check for C03 {
             let pk = |k: &str| crate::mirror::ast::Node::Check(Box::new(crate::mirror::ast::Node::PkK(k.to_string())));
             use crate::mdesc::MTree;
             crate::mdesc::MDesc::Tr(i, Some(MTree::Branch(Box::new(MTree::Leaf(pk(&a))), Box::new(MTree::Branch(Box::new(MTree::Leaf(pk(&b2))), Box::new(MTree::Leaf(pk(&a))))))))
+        } else if !heavy && !libsane && src.chance(1, 150) {
+            // probe of a listed finding: one x-only key written in its two compressed encodings
+            // (02X / 03X) counts as two keys in the repeated-key rule
+            let c = keys::key_compressed(src.below(8));
+            let flipped = format!("{}{}", if c.starts_with("02") { "03" } else { "02" }, &c[2..]);
+            let pk = |k: &str| crate::mirror::ast::Node::Check(Box::new(crate::mirror::ast::Node::PkK(k.to_string())));
+            if src.chance(1, 3) {
+                // pre-segwit: the compressed and the uncompressed serialization of one key
+                let ki = src.below(8);
+                let (c, u) = (keys::key_compressed(ki), keys::key_uncompressed(ki));
+                crate::mdesc::MDesc::Sh(crate::mirror::ast::Node::OrD(Box::new(pk(&c)), Box::new(pk(&u))))
+            } else {
+                let i = keys::key_xonly(8 + src.below(4));
+                let body = if src.bool() { crate::mirror::ast::Node::OrD(Box::new(pk(&c)), Box::new(pk(&flipped))) } else { crate::mirror::ast::Node::OrI(Box::new(pk(&flipped)), Box::new(pk(&c))) };
+                crate::mdesc::MDesc::Tr(i, Some(crate::mdesc::MTree::Leaf(body)))
+            }
         } else {
             d
+        };
+        let two_forms = {
+            // two different key texts that are one key in the script
+            let ctx = d.ctx();
+            let ks = d.all_keys();
+            let mut seen: Vec<(Vec<u8>, String)> = Vec::new();
+            let mut hit = false;
+            for k in ks {
+                if let Ok(kb) = crate::mirror::encode::key_bytes(&k, ctx) {
+                    let canon = if ctx == crate::mirror::spec::Ctx::Tap { kb.clone() } else { keys::compressed_of(&kb).unwrap_or(kb.clone()) };
+                    if seen.iter().any(|(c, t)| *c == canon && *t != k) {
+                        hit = true;
+                    }
+                    seen.push((canon, k));
+                }
+            }
+            hit
         };
         let sugar = src.bool();
         let text = d.print(sugar);
@@ -225,7 +258,7 @@ impl Check for C03 {
                     // party re-uses the witness stack with the other position's control block
                     let dup_leaf = acc == &w && matches!(&path, Path::Script(pi) if *pi != i && us[*pi].script == u.script);
                     return fail(
-                        &if dup_leaf { "malleable/duplicate-leaf-script".to_string() } else { format!("malleable/{}", crate::checks::c02::frag_signature(&d)) },
+                        &if dup_leaf { "malleable/duplicate-leaf-script".to_string() } else if two_forms { "malleable/one-key-two-encodings".to_string() } else { format!("malleable/{}", crate::checks::c02::frag_signature(&d)) },
                         format!(
                             "a third party can replace the witness: library stack {:?} (path {:?}); alternative accepted stack {:?} on script #{}",
                             w.iter().map(|x| keys::hex(x)).collect::<Vec<_>>(),
